@@ -984,4 +984,19 @@ static bool remove_never_call_expectation_for(const char* function) {
     return false;
 }
 
+
+#ifdef CGREEN_VERIF
+/* Verification hook: read-only dump of the pending expectation queue, one
+   "(function,time_to_live,number_times_called,times_triggered)" per entry, in queue order */
+void cgreen_verif_dump_expectations(FILE *out) {
+    int i;
+    for (i = 0; i < cgreen_vector_size(global_expectation_queue); i++) {
+        RecordedExpectation *expectation =
+            (RecordedExpectation *)cgreen_vector_get(global_expectation_queue, i);
+        fprintf(out, "(%s,%d,%d,%d)", expectation->function, expectation->time_to_live,
+                expectation->number_times_called, expectation->times_triggered);
+    }
+}
+#endif
+
 /* vim: set ts=4 sw=4 et cindent: */
